@@ -130,7 +130,9 @@ CLAIMED = {
          "calls, store ops and mtime queries (C10_retry_*). Real-thread rendezvous runs check that max_workers independent calls do run in parallel.", "4/C10"),
  "C17": ("proof", "Lean 4 proof (interrupt transition in the engine model) + trace refinement check with injected KeyboardInterrupt",
          "After the coordinator's setStop no call begins, for the rest of the run; a running call is only ever changed by its own completion "
-         "(C17_no_new, C17_no_new_ever, C17_inflight). Partial: signal delivery window before `stop = True` is runtime behaviour.", "4/C17"),
+         "(C17_no_new, C17_no_new_ever, C17_inflight); the interrupt reaches a caller that is asleep in queue.join(), leaves it in the clean-up path, "
+         "from which the run can always be driven to its end by threads that are awake, and the interrupted flag is carried to the end "
+         "(C17_interrupt_wakes, C17_interrupted_stays). Partial: signal delivery window before `stop = True` is runtime behaviour.", "4/C17"),
 }
 NOTES = {
  "C02": ("Theorems are about Model/Plan.lean (Python values with identity tags, keyed multigraph, gather/addCall/unpack/getArgumentNodes transcribed, "
